@@ -401,7 +401,43 @@ def _shape_check(b, viol, label):
                     viol.append((label + f"shape of next {var} of {key}", list(s1), list(s0)))
 
 
+def _eval_C07_history(case):
+    """a network reached by an arbitrary construction history: if validation accepts it, it can be
+    initialised and stepped on every engine and compiled (whatever the documented conditions say)"""
+    from apihist import World
+    from netgen import model_params
+
+    params = model_params()
+    viol, evals = [], 0
+    for label, mk in (("numpy", lambda: NumpyEngine("rand")), ("casadi SX", lambda: CasadiEngine("SX")), ("casadi MX", lambda: CasadiEngine("MX"))):
+        w = World(case["pool"])
+        for op in case["history"]:
+            if op[0] in ("read", "is_valid"):
+                continue
+            try:
+                w.apply(op)
+            except Exception:  # noqa: BLE001
+                pass
+        try:
+            ok, _ = w.net.is_valid(raises=False)
+        except Exception:  # noqa: BLE001
+            return dict(violations=[], evals=0)
+        if not ok:
+            return dict(violations=[], evals=1, tags=["rejected"])
+        evals += 1
+        try:
+            eng = mk()
+            w.net.step(engine=eng, **params)
+            if label != "numpy":
+                eng.to_function(w.net, compact=evals % 3, **params)
+        except Exception as e:  # noqa: BLE001
+            viol.append((f"a network accepted by validation cannot be stepped/compiled ({label}): {type(e).__name__}: {e}", short_tb(), "no exception"))
+    return dict(violations=viol[:6], evals=evals, tags=["accepted"])
+
+
 def eval_C07(case):
+    if "history" in case:
+        return _eval_C07_history(case)
     params = params_of(case)
     flags = case.get("flags")
     viol, evals = [], 0
@@ -459,8 +495,42 @@ def eval_C07(case):
 
 
 def check_C07(rng, budget):
+    from cases import recipes
+    from props_struct import mutate_valid
+
+    def one_off():
+        """small networks that violate exactly one documented condition (rejected today): if a change of
+        the validation lets one through, it must still be steppable"""
+        from apihist import small_pool
+
+        pool = small_pool()
+        base = [["add_nodes", ["n0", "n1", "n2", "n3"]]]
+        hs = {
+            "(7) ramp with two exits": [["add_link", "n0", "L0", "n1"], ["add_link", "n1", "L1", "n2"], ["add_link", "n1", "L2", "n3"], ["add_origin", "M0", "n0"],
+                                        ["add_origin", "R0", "n1"], ["add_destination", "D0", "n2"], ["add_destination", "D1", "n3"]],
+            "(7) simple ramp with two exits": [["add_link", "n0", "L0", "n1"], ["add_link", "n1", "L1", "n2"], ["add_link", "n1", "L2", "n3"], ["add_origin", "I0", "n0"],
+                                               ["add_origin", "S0", "n1"], ["add_destination", "D0", "n2"], ["add_destination", "D1", "n3"]],
+            "(7) source with two exits": [["add_link", "n0", "L0", "n1"], ["add_link", "n0", "L1", "n2"], ["add_origin", "M0", "n0"], ["add_destination", "D0", "n1"],
+                                          ["add_destination", "D1", "n2"], ["add_link", "n3", "L2", "n1"], ["add_origin", "I0", "n3"]],
+            "(6) mainstream origin inside": [["add_link", "n0", "L0", "n1"], ["add_link", "n1", "L1", "n2"], ["add_origin", "I0", "n0"], ["add_origin", "M0", "n1"],
+                                             ["add_destination", "D0", "n2"], ["add_link", "n3", "L2", "n1"], ["add_origin", "R0", "n3"]],
+            "(8) destination with two entering links": [["add_link", "n0", "L0", "n2"], ["add_link", "n1", "L1", "n2"], ["add_origin", "M0", "n0"], ["add_origin", "I0", "n1"],
+                                                        ["add_destination", "D1", "n2"], ["add_link", "n3", "L2", "n0"], ["add_origin", "R0", "n3"]],
+            "(9) destination with an exit": [["add_link", "n0", "L0", "n1"], ["add_link", "n1", "L1", "n2"], ["add_origin", "M0", "n0"], ["add_destination", "D0", "n1"],
+                                             ["add_destination", "D1", "n2"], ["add_link", "n3", "L2", "n0"], ["add_origin", "R0", "n3"]],
+            "(2) origin and destination on one node": [["add_link", "n0", "L0", "n1"], ["add_origin", "M0", "n0"], ["add_destination", "D0", "n1"], ["add_origin", "R0", "n1"],
+                                                       ["add_link", "n2", "L1", "n0"], ["add_origin", "I0", "n2"], ["add_link", "n3", "L2", "n0"], ["add_origin", "R1", "n3"]],
+        }
+        for tag, h in hs.items():
+            yield dict(pool=pool, history=base + h, tag="one-condition-off " + tag)
+
     def gen():
+        rec_stream = recipes(rng, incremental=True, long_links=False)
+        yield from one_off()
         for i, c in enumerate(net_cases(rng, kinds=("boundary",), per_net=1, zero=True)):
+            if i % 2 == 0:  # valid networks changed by a few further construction calls: stepped iff still accepted
+                for _ in range(3):
+                    yield mutate_valid(rng, next(rec_stream))
             c["flags"] = rand_flags(rng, 0.3) if i % 3 == 0 else None
             c["more_out"] = bool(i % 4 == 1)
             c["fill"] = float(rng.uniform(0.5, 60))
